@@ -23,6 +23,10 @@ def random_split_case(rng, max_windows=60, small_rate=True, allow_partial=True, 
         w = (block + rng.choice((0.25, 0.5, 0.75))) / rate
     if int(w * rate) != block or W.block_size(w, rate) != block:
         w = (block + 0.5) / rate
+    default_window = False
+    if rate == 100 and rng.random() < 0.4:
+        # the documented default analysis window (0.05 s): the argument is simply not given
+        block, w, default_window = 5, 0.05, True
     max_len = rng.choice((1, 2, 3, 4, 5, 6, 8, 12))
     min_len = rng.randint(1, max_len)
     max_sil = rng.randint(0, max_len - 1)
@@ -50,7 +54,7 @@ def random_split_case(rng, max_windows=60, small_rate=True, allow_partial=True, 
         thr = rng.choice((0, 0.0))  # a falsy threshold is a perfectly good threshold (0 dB: any non-zero window is active)
     return dict(rate=rate, width=width, channels=channels, block=block, w=w, min_len=min_len, max_len=max_len,
                 max_sil=max_sil, drop=drop, strict=strict, v=v, partial=partial, uc=uc, thr=thr,
-                pcm_seed=rng.getrandbits(48), random_pcm=rng.random() < 0.15)
+                pcm_seed=rng.getrandbits(48), random_pcm=rng.random() < 0.15, default_window=default_window)
 
 
 def build_audio(case):
@@ -95,6 +99,9 @@ def split_kwargs(case, long_names=True):
         kw.update(analysis_window=case["w"], energy_threshold=case["thr"], use_channel=case["uc"])
     else:
         kw.update(aw=case["w"], eth=case["thr"], uc=case["uc"])
+    if case.get("default_window") and case["w"] == 0.05 and int(0.05 * case["rate"]) == case["block"]:
+        kw.pop("analysis_window", None)
+        kw.pop("aw", None)
     return kw
 
 
